@@ -68,7 +68,8 @@ def strategy(tier):
 
 # ----------------------------------------------------------------------------------------------
 
-def expect(res, src, exp_dims, exp_labels, new_dims, what, sig, attrs=True, placeholder_ok=True):
+def expect(res, src, exp_dims, exp_labels, new_dims, what, sig, attrs=True, placeholder_ok=True, src_dtype=None):
+    src_dtype = src_dtype if src_dtype is not None else _SRC_DTYPE.get("dtype")
     """result must hold src's cell at the coordinate restricted to src's dims (dims in new_dims are dropped/replaced).
     An introduced dimension whose target is a single label may keep newaxis' placeholder label None (the
     statement only speaks of axes that travel with data)."""
@@ -83,8 +84,14 @@ def expect(res, src, exp_dims, exp_labels, new_dims, what, sig, attrs=True, plac
         key = tuple(single[d] if d in single else core.canon_label(c[d]) for d in src.dims)
         return src.cells[key]
     core.expect_array(res, exp_dims, exp_labels, val, what, sig=sig)
+    if src_dtype is not None:
+        # rearranging never converts the data (7 stays an int, True stays a bool)
+        check(res.values.dtype == src_dtype, "dtype", {"what": what, "got": str(res.values.dtype), "expected": str(src_dtype)}, sig)
     if attrs:
         check(core.attrs_equal(res.attrs, ATTRS), "attrs-not-kept", {"what": what, "got": core.jsonable(res.attrs)}, sig)
+
+
+_SRC_DTYPE = {}
 
 
 def run_case(case):
@@ -94,6 +101,7 @@ def run_case(case):
     nd = len(dims)
     a = core.build(spec, attrs=ATTRS)
     snap = core.snapshot(a)
+    _SRC_DTYPE["dtype"] = a.values.dtype
     src = core.model_of_spec(spec)
     sub = []
     cl = set(["ndim:%d" % nd])
@@ -307,9 +315,9 @@ def run_case(case):
         all_l = [lab_of[d] if d in dims else bl[bd.index(d)] for d in alld]
         if alld:
             expect(res[0], src, alld, all_l, [d for d in alld if d not in dims], what + " [0]", {"op": "broadcast_arrays"})
-            expect(res[1], msrc_b, alld, all_l, [d for d in alld if d not in bd], what + " [1]", {"op": "broadcast_arrays"}, attrs=False)
+            expect(res[1], msrc_b, alld, all_l, [d for d in alld if d not in bd], what + " [1]", {"op": "broadcast_arrays"}, attrs=False, src_dtype=b.values.dtype)
             if len(arrays) == 3:
-                expect(res[2], core.L((), [], {(): 7.5}), alld, all_l, alld, what + " [2]", {"op": "broadcast_arrays"}, attrs=False)
+                expect(res[2], core.L((), [], {(): 7.5}), alld, all_l, alld, what + " [2]", {"op": "broadcast_arrays"}, attrs=False, src_dtype=np.dtype(float))
         done("broadcast_arrays", [bd], True)
     guard("broadcast_arrays", t_barrays)
 
